@@ -2,7 +2,8 @@
 
    Model: Graph/GStore.v (Node, Output, Graph), Graph/Engine.v (Transformer.transform),
    Graph/Denote.v (what a node output denotes, for every interpretation of payloads),
-   Graph/Copy.v Rename.v Dedup.v Split.v Expand.v Fuse.v (the six transformers), as of the
+   Graph/Copy.v Rename.v Dedup.v Split.v Expand.v Fuse.v (the six transformers),
+   Graph/GraphOps.v (Graph objects over time: empty, +, +=, join_namespaced), as of the
    repository commits 5f2bc4c, 96f2ca8, c784dd1.
    Hypotheses, in words:
      topo (heap g)      : the graph is acyclic, nodes numbered parents first (GStore.v);
@@ -14,7 +15,7 @@ From EKW Require Import Graph.GStore Graph.ExportCheck Graph.Denote Graph.Engine
 From EKW Require Import Graph.Copy Graph.Rename Graph.CopyProofs Graph.Dedup Graph.DedupProofs Graph.DedupIdem.
 From EKW Require Import Graph.Split Graph.SplitProofs Graph.Expand Graph.ExpandProofs Graph.Fuse Graph.FuseProofs.
 From EKW Require Import Graph.EngineFuel Graph.EngineFuelAll Graph.ExpandSplice.
-From EKW Require Import Graph.EngineCheck.
+From EKW Require Import Graph.EngineCheck Graph.GraphOps Graph.GraphOpsProofs Graph.GraphOpsCheck.
 Import ListNotations.
 Open Scope string_scope.
 Open Scope list_scope.
@@ -281,16 +282,19 @@ Qed.
    what the child denotes whenever the child's input cin is fed by something that denotes
    output pout of the parent: sink i of the result denotes what sink i of the input denotes.
    The model includes the source's behaviour of handing the callback the UNTRANSFORMED
-   child (inputs pointing to the original parent objects) on the first fusion. *)
+   child (inputs pointing to the original parent objects) on the first fusion, and both
+   ways a callback can answer: with a NEW node (ip = false) or with the child OBJECT it
+   was handed, written in place (ip = true: later consumers of the child, which still point
+   to that object, then see the fused node) -- Graph/Fuse.v. *)
 Theorem C11_fuse_preserves :
   forall (P V : Type) (interp : option P -> list string -> list (string * V) -> string -> V)
-         (func : node P -> string -> node P -> string -> option (node P)) (g g' : graph P) calls,
+         (func : node P -> string -> node P -> string -> option (bool * node P)) (g g' : graph P) calls,
   topo (heap g) ->
   (forall n nd, nth_error (heap g) n = Some nd -> NoDup (map fst (nins nd))) ->
-  (forall (H : list (node P)) rp pn pout cur cin fused,
+  (forall (H : list (node P)) rp pn pout cur cin ip fused,
      topo H -> nth_error H rp = Some pn ->
      Forall (fun x => fst (snd x) < List.length H) (nins cur) ->
-     func pn pout cur cin = Some fused ->
+     func pn pout cur cin = Some (ip, fused) ->
      Forall (fun x => fst (snd x) < List.length H) (nins fused) /\
      (forall k, k <> cin -> lookup k (nins fused) = lookup k (nins cur)) /\
      (forall q, lookup cin (nins cur) = Some (q, pout) -> (forall o, sem interp H q o = sem interp H rp o) ->
@@ -298,6 +302,63 @@ Theorem C11_fuse_preserves :
   fuse_nodes func g = Ok (g', calls) ->
   Forall2 (fun s s' => forall o, sem interp (heap g') s' o = sem interp (heap g) s o) (sinks g) (sinks g').
 Proof. exact fuse_preserves_sem. Qed.
+
+(* Graph objects over time (Graph/GraphOps.v: a store of sink-list OBJECTS, a graph object
+   holds one of them; Graph.empty(), +, +=, join_namespaced, the graph() step of the
+   transformers).  After ANY program `ops` that never hands a graph's own list to the
+   constructor, one more operation leaves the sinks of every existing graph v as they are --
+   except `a += b`, which gives a the sinks of a followed by those of b and changes nothing
+   else.  So a graph returned by empty(), +, join_namespaced or a transformer never changes
+   because of what is done later to other graphs, and what a call returns does not depend
+   on earlier calls. *)
+Theorem C11_graph_ops_frame : forall ops op st st' v lv,
+  forallb wrap_free ops = true -> grun ginit ops = Ok st -> gstep st op = Ok st' ->
+  sinks_of st v = Ok lv ->
+  match op with
+  | GIAdd a b => if Nat.eqb v a then exists lb, sinks_of st b = Ok lb /\ sinks_of st' v = Ok (lv ++ lb)
+                 else sinks_of st' v = Ok lv
+  | _ => sinks_of st' v = Ok lv
+  end.
+Proof. exact grun_frame. Qed.
+
+(* ... what the graph an operation returns holds: empty() nothing, a + b the sinks of a then
+   those of b, join_namespaced the renamed sinks of its arguments in keyword order (as many
+   per argument as the argument has), a positional transformer as many sinks as its input *)
+Theorem C11_graph_ops_result : forall st op st', gstep st op = Ok st' -> creates op = true ->
+  List.length (gvars st') = S (List.length (gvars st)) /\
+  match op with
+  | GNew l => sinks_of st' (List.length (gvars st)) = Ok l
+  | GEmpty => sinks_of st' (List.length (gvars st)) = Ok []
+  | GWrap a => lid st' (List.length (gvars st)) = lid st a
+  | GAdd a b => exists la lb, sinks_of st a = Ok la /\ sinks_of st b = Ok lb /\
+                              sinks_of st' (List.length (gvars st)) = Ok (la ++ lb)
+  | GJoin parts => sinks_of st' (List.length (gvars st)) = Ok (concat_parts parts) /\
+                   Forall (fun p => exists la, sinks_of st (fst p) = Ok la /\ List.length (snd p) = List.length la) parts
+  | GTrans a pos l => sinks_of st' (List.length (gvars st)) = Ok l /\
+                      exists la, sinks_of st a = Ok la /\ (pos = true -> List.length l = List.length la)
+  | GIAdd _ _ => True
+  end.
+Proof. exact gstep_new. Qed.
+
+(* ... Graph.empty() is a unit:  e = Graph.empty(); e += b  gives e exactly the sinks of b *)
+Theorem C11_graph_empty_unit : forall st b lb st1 st2, gwf st -> sinks_of st b = Ok lb ->
+  gstep st GEmpty = Ok st1 -> gstep st1 (GIAdd (List.length (gvars st)) b) = Ok st2 ->
+  sinks_of st2 (List.length (gvars st)) = Ok lb.
+Proof. exact empty_iadd. Qed.
+
+(* join_namespaced: every graph renamed with its namespace (any namespaces, equal or not);
+   sink j of the i-th renamed graph denotes what sink j of the i-th argument denotes, and
+   there are as many; joining no graph is a TypeError *)
+Theorem C11_join_preserves :
+  forall (P V : Type) (interp : option P -> list string -> list (string * V) -> string -> V)
+         (gs : list (string * graph P)) rs,
+  Forall (fun x => topo (heap (snd x))) gs -> join_namespaced gs = Ok rs ->
+  Forall2 (fun x g' => Forall2 (fun s s' => forall o, sem interp (heap g') s' o = sem interp (heap (snd x)) s o)
+                               (sinks (snd x)) (sinks g')) gs rs /\
+  map (fun g' => List.length (sinks g')) rs = map (fun x => List.length (sinks (snd x))) gs.
+Proof.
+  intros P V interp gs rs Ht H. split; [exact (join_preserves_sem P V interp gs rs Ht H)|exact (joined_sinks_length P gs rs H)].
+Qed.
 
 (* ------------------------------------------------------------------ concrete instances *)
 (* shared sub-expression (node 1 used twice), a multi-output node, two sinks, names that
@@ -454,34 +515,91 @@ Proof.
 Qed.
 
 (* the callback contract is satisfiable by a callback that does return nodes (for every
-   interpretation): one that hands back the child under a new name; and on g_ex the model
-   offers it exactly the single-consumer parents *)
-Definition relabel (pn : node pv) (pout : string) (cur : node pv) (cin : string) : option (node pv) :=
-  Some (mkNode (nname pn ++ "+" ++ nname cur)%string (nouts cur) (npay cur) (nins cur)).
+   interpretation): one that hands back the child under a new name -- as a new object
+   (ip = false) or written into the child object (ip = true); and on g_ex the model offers it
+   exactly the single-consumer parents *)
+Definition relabel (ip : bool) (pn : node pv) (pout : string) (cur : node pv) (cin : string) : option (bool * node pv) :=
+  Some (ip, mkNode (nname pn ++ "+" ++ nname cur)%string (nouts cur) (npay cur) (nins cur)).
 
-Example C11_fuse_nonvacuous :
+Example C11_fuse_nonvacuous : forall ip0,
   (forall (V : Type) (interp : option pv -> list string -> list (string * V) -> string -> V)
-          (H : list (node pv)) rp pn pout cur cin fused,
+          (H : list (node pv)) rp pn pout cur cin ip fused,
      topo H -> nth_error H rp = Some pn ->
      Forall (fun x => fst (snd x) < List.length H) (nins cur) ->
-     relabel pn pout cur cin = Some fused ->
+     relabel ip0 pn pout cur cin = Some (ip, fused) ->
      Forall (fun x => fst (snd x) < List.length H) (nins fused) /\
      (forall k, k <> cin -> lookup k (nins fused) = lookup k (nins cur)) /\
      (forall q, lookup cin (nins cur) = Some (q, pout) -> (forall o, sem interp H q o = sem interp H rp o) ->
         forall o, sem interp (H ++ [fused]) (List.length H) o = sem interp (H ++ [cur]) (List.length H) o)) /\
   (forall n nd, nth_error (heap g_ex) n = Some nd -> NoDup (map fst (nins nd))) /\
-  exists g' calls, fuse_nodes relabel g_ex = Ok (g', calls) /\
+  exists g' calls, fuse_nodes (relabel ip0) g_ex = Ok (g', calls) /\
      calls = [("m", "0", "w", "input")] /\
      map (fun s => denote (heap g') s "0") (sinks g') = map (fun s => denote (heap g_ex) s "0") (sinks g_ex).
 Proof.
-  split; [|split].
-  - intros V interp H rp pn pout cur cin fused _ _ HF Heq. unfold relabel in Heq. injection Heq as <-. simpl.
+  intros ip0. split; [|split].
+  - intros V interp H rp pn pout cur cin ip fused _ _ HF Heq. unfold relabel in Heq. injection Heq as _ <-. simpl.
     split; [assumption|]. split; [reflexivity|]. intros q _ _ o. rewrite !sem_new. reflexivity.
   - intros n nd Hn. unfold g_ex in Hn. simpl in Hn.
     do 5 (destruct n as [|n]; [injection Hn as <-; simpl; repeat constructor; simpl; intuition discriminate|simpl in Hn]).
     destruct n; discriminate.
-  - eexists. eexists. split; [vm_compute; reflexivity|]. split; reflexivity.
+  - destruct ip0; (eexists; eexists; split; [vm_compute; reflexivity|]; split; reflexivity).
 Qed.
+
+(* where the two ways of answering differ: d reads c1 and c2, each the only consumer of a
+   source.  The callback fuses b1 into c1 and b2 into c2, then c1 into d; d's other input
+   still points to the OBJECT c2: the untouched c2 (and behind it b2) when the fused node
+   was a new object, the fused node itself when c2 was written in place.  Same calls, same
+   denotation, different graphs. *)
+Definition g_two : graph pv := mkGraph
+  [ mkNode "b1" ["0"] (Some (PInt 1)) [];
+    mkNode "c1" ["0"] (Some (PInt 2)) [("x", (0, "0"))];
+    mkNode "b2" ["0"] (Some (PInt 3)) [];
+    mkNode "c2" ["0"] (Some (PInt 4)) [("x", (2, "0"))];
+    mkNode "d" [] None [("x", (1, "0")); ("y", (3, "0"))] ]
+  [4].
+
+Definition reach_names (g : graph pv) : list string :=
+  match canon g with Ok (_, ns) => map (@nname pv) ns | Err e => [e] end.
+
+Example C11_fuse_inplace_nonvacuous :
+  exists gn cn gs cs,
+    fuse_nodes (relabel false) g_two = Ok (gn, cn) /\ fuse_nodes (relabel true) g_two = Ok (gs, cs) /\
+    cn = cs /\ List.length cn = 4 /\
+    reach_names gn = ["b2+c2+b1+c1+d"; "c2"; "b2"; "c1"; "b1"] /\
+    reach_names gs = ["b2+c2+b1+c1+d"; "b2+c2"; "b2"; "b1+c1"; "b1"] /\
+    map (fun s => denote (heap gn) s "0") (sinks gn) = map (fun s => denote (heap g_two) s "0") (sinks g_two) /\
+    map (fun s => denote (heap gs) s "0") (sinks gs) = map (fun s => denote (heap g_two) s "0") (sinks g_two).
+Proof.
+  eexists. eexists. eexists. eexists.
+  split; [vm_compute; reflexivity|]. split; [vm_compute; reflexivity|].
+  repeat split; vm_compute; reflexivity.
+Qed.
+
+(* two joins in a row, an empty graph extended in place, a sum: the second join holds its own
+   two sinks only and the first is what it was; and the model can express the failure the
+   frame theorem excludes: with Graph(a.sinks) two graphs hold one list, `+=` on one shows
+   in the other *)
+Definition ops_ex : list gop :=
+  [ GNew [0]; GNew [1; 2]; GJoin [(0, [0]); (1, [1; 2])]; GNew [3]; GJoin [(3, [3])];
+    GEmpty; GIAdd 5 2; GAdd 4 5; GIAdd 0 3 ].
+
+Example C11_graph_ops_nonvacuous :
+  forallb wrap_free ops_ex = true /\
+  (exists st, grun ginit ops_ex = Ok st /\
+     all_sinks st = [[0; 3]; [1; 2]; [0; 1; 2]; [3]; [3]; [0; 1; 2]; [3; 0; 1; 2]]) /\
+  (exists st, grun ginit [GNew [0]; GWrap 0; GNew [1]; GIAdd 0 2] = Ok st /\ all_sinks st = [[0; 1]; [0; 1]; [1]]) /\
+  gstep ginit (GJoin []) = Err "TypeError".
+Proof.
+  split; [reflexivity|]. split; [eexists; split; vm_compute; reflexivity|].
+  split; [eexists; split; vm_compute; reflexivity|reflexivity].
+Qed.
+
+Example C11_join_nonvacuous :
+  exists rs, join_namespaced [("a", g_ex); ("a.b", g_two); ("", g_ex)] = Ok rs /\
+    map (fun g' => map (fun s => name_of (heap g') s) (sinks g')) rs = [["a.w"; "a.tail"]; ["a.b.d"]; [".w"; ".tail"]] /\
+    map (fun g' => map (fun s => denote (heap g') s "0") (sinks g')) rs =
+    map (fun g => map (fun s => denote (heap g) s "0") (sinks g)) [g_ex; g_two; g_ex].
+Proof. eexists. split; [vm_compute; reflexivity|]. split; vm_compute; reflexivity. Qed.
 
 (* the hypotheses of the fuel and partition theorems hold for g_ex / string keys *)
 Example C11_fuel_nonvacuous : topo (heap g_ex) /\ valid_sinks g_ex /\ exists g', copy_graph g_ex = Ok g'.
@@ -514,3 +632,7 @@ Print Assumptions C11_split_cuts_exact_partial.
 Print Assumptions C11_engine_fuel_sufficient.
 Print Assumptions C11_fuel_all.
 Print Assumptions C11_dedup_idempotent.
+Print Assumptions C11_graph_ops_frame.
+Print Assumptions C11_graph_ops_result.
+Print Assumptions C11_graph_empty_unit.
+Print Assumptions C11_join_preserves.
